@@ -199,6 +199,18 @@ def build_world(world):
     for i, g in enumerate(world["graphs"]):
         jgs[g["name"]] = build_job_graph(g, profiles, seed=(world["seed"] * 1000 + i) % (2 ** 32))
     b.job_graphs = jgs
+    b.preloaded = []
+    for wname, pname in world.get("preload", []):
+        for pool in b.worker_pools.worker_pools:
+            for w in pool.workers:
+                if w.name == wname:
+                    prof = profiles[pname]
+                    ls = prof.loading_strategies.get_fastest_strategy()
+                    w.load_profile(prof, ls)
+                    b.preloaded.append((w, prof, ls))
+    if b.preloaded:
+        for pool in b.worker_pools.worker_pools:
+            pool.step(US(0), US(1000000))
     b.workload = Workload.from_job_graphs(jgs, _flags=b.flags)
     b.workload.populate_task_graphs(completion_time=US(world["sim"]["loop_timeout"]))
     if _LOADER_CLS is None:
